@@ -25,7 +25,7 @@ Explains(r) ==
                        /\ NStepOK(DimOf(r.ty), cur, r.op, r.res, r.err, r.post)
     [] OTHER -> FALSE
 
-FullIterKinds == {"NIterAll", "NIotaAll", "NSapyb", "NXapyb"}
+FullIterKinds == {"NIterAll", "NIotaAll", "NSapyb", "NXapyb", "NXapybM", "NXapybSM", "NSapybM"}
 Classify(r) ==
   IF r.e # "Step" \/ cur = None \/ r.op.k \notin NKinds THEN "new"
   ELSE LET st == NStateOfObs(cur)
@@ -37,7 +37,7 @@ Classify(r) ==
        \* C11-contig-empty: is_contiguous() of an array without elements / with such a sub-array binds a reference to null
        ELSE IF r.abort /\ r.op.k = "NContig" /\ (SizeAll(X) = 0 \/ HasEmptyRow(X)) THEN "C11-contig-empty"
        \* C11-regrow-stale: sub-arrays re-exposed by resize / grow / growing arithmetic keep earlier contents
-       ELSE IF ~r.abort /\ ~r.err /\ r.op.k \in ({"NResize", "NGrow"} \cup NVecOps) /\ NEnabled(DimOf(r.ty), st, r.op)
+       ELSE IF ~r.abort /\ ~r.err /\ r.op.k \in ({"NResize", "NGrow", "NVOpM"} \cup NVecOps) /\ NEnabled(DimOf(r.ty), st, r.op)
                /\ StaleOnly(X, NApply(DimOf(r.ty), st, r.op).st.s[r.op.t], r.post.s[r.op.t].t) THEN "C11-regrow-stale"
        ELSE "new"
 
